@@ -15,11 +15,118 @@ pub struct LexState {
     pub indented: bool,
 }
 
-/// n is the length of the maximal prefix of s whose chars all satisfy p
-pub open spec fn is_run(s: Seq<char>, p: spec_fn(char) -> bool, n: int) -> bool {
+/// length of the maximal prefix of s made of space/tab, of key characters, of non-newline characters
+pub open spec fn run_indent(s: Seq<char>) -> int
+    decreases s.len()
+{
+    if s.len() > 0 && is_indent_s(s[0]) { 1 + run_indent(s.skip(1)) } else { 0 }
+}
+pub open spec fn run_key(s: Seq<char>) -> int
+    decreases s.len()
+{
+    if s.len() > 0 && is_key_char_s(s[0]) { 1 + run_key(s.skip(1)) } else { 0 }
+}
+pub open spec fn run_not_nl(s: Seq<char>) -> int
+    decreases s.len()
+{
+    if s.len() > 0 && !is_newline_s(s[0]) { 1 + run_not_nl(s.skip(1)) } else { 0 }
+}
+
+/// n is the length of the maximal prefix of s made of space/tab (key chars, non-newline chars)
+pub open spec fn is_indent_run(s: Seq<char>, n: int) -> bool {
     &&& 0 <= n <= s.len()
-    &&& forall|j: int| 0 <= j < n ==> p(#[trigger] s[j])
-    &&& (n == s.len() || !p(s[n]))
+    &&& forall|j: int| 0 <= j < n ==> is_indent_s(#[trigger] s[j])
+    &&& (n == s.len() || !is_indent_s(s[n]))
+}
+pub open spec fn is_key_run(s: Seq<char>, n: int) -> bool {
+    &&& 0 <= n <= s.len()
+    &&& forall|j: int| 0 <= j < n ==> is_key_char_s(#[trigger] s[j])
+    &&& (n == s.len() || !is_key_char_s(s[n]))
+}
+pub open spec fn is_not_nl_run(s: Seq<char>, n: int) -> bool {
+    &&& 0 <= n <= s.len()
+    &&& forall|j: int| 0 <= j < n ==> !is_newline_s(#[trigger] s[j])
+    &&& (n == s.len() || is_newline_s(s[n]))
+}
+
+/// the run functions compute exactly "the maximal run" (and a maximal run is unique)
+pub broadcast proof fn lemma_run_indent(s: Seq<char>)
+    ensures is_indent_run(s, #[trigger] run_indent(s)),
+        forall|n: int| #[trigger] is_indent_run(s, n) ==> n == run_indent(s),
+    decreases s.len()
+{
+    if s.len() > 0 && is_indent_s(s[0]) {
+        lemma_run_indent(s.skip(1));
+        let r = run_indent(s.skip(1));
+        assert forall|j: int| 0 <= j < r + 1 implies is_indent_s(#[trigger] s[j]) by { if j > 0 { assert(s[j] == s.skip(1)[j - 1]); } }
+        if r + 1 < s.len() { assert(s[r + 1] == s.skip(1)[r]); }
+        assert forall|n: int| is_indent_run(s, n) implies n == run_indent(s) by {
+            if n == 0 { assert(!is_indent_s(s[0])); } else {
+                assert forall|j: int| 0 <= j < n - 1 implies is_indent_s(#[trigger] s.skip(1)[j]) by { assert(s.skip(1)[j] == s[j + 1]); }
+                if n < s.len() { assert(s.skip(1)[n - 1] == s[n]); }
+                assert(is_indent_run(s.skip(1), n - 1));
+            }
+        }
+    } else {
+        assert forall|n: int| is_indent_run(s, n) implies n == run_indent(s) by { if n > 0 { assert(is_indent_s(s[0])); } }
+    }
+}
+pub broadcast proof fn lemma_run_key(s: Seq<char>)
+    ensures is_key_run(s, #[trigger] run_key(s)),
+        forall|n: int| #[trigger] is_key_run(s, n) ==> n == run_key(s),
+    decreases s.len()
+{
+    if s.len() > 0 && is_key_char_s(s[0]) {
+        lemma_run_key(s.skip(1));
+        let r = run_key(s.skip(1));
+        assert forall|j: int| 0 <= j < r + 1 implies is_key_char_s(#[trigger] s[j]) by { if j > 0 { assert(s[j] == s.skip(1)[j - 1]); } }
+        if r + 1 < s.len() { assert(s[r + 1] == s.skip(1)[r]); }
+        assert forall|n: int| is_key_run(s, n) implies n == run_key(s) by {
+            if n == 0 { assert(!is_key_char_s(s[0])); } else {
+                assert forall|j: int| 0 <= j < n - 1 implies is_key_char_s(#[trigger] s.skip(1)[j]) by { assert(s.skip(1)[j] == s[j + 1]); }
+                if n < s.len() { assert(s.skip(1)[n - 1] == s[n]); }
+                assert(is_key_run(s.skip(1), n - 1));
+            }
+        }
+    } else {
+        assert forall|n: int| is_key_run(s, n) implies n == run_key(s) by { if n > 0 { assert(is_key_char_s(s[0])); } }
+    }
+}
+pub broadcast proof fn lemma_run_not_nl(s: Seq<char>)
+    ensures is_not_nl_run(s, #[trigger] run_not_nl(s)),
+        forall|n: int| #[trigger] is_not_nl_run(s, n) ==> n == run_not_nl(s),
+    decreases s.len()
+{
+    if s.len() > 0 && !is_newline_s(s[0]) {
+        lemma_run_not_nl(s.skip(1));
+        let r = run_not_nl(s.skip(1));
+        assert forall|j: int| 0 <= j < r + 1 implies !is_newline_s(#[trigger] s[j]) by { if j > 0 { assert(s[j] == s.skip(1)[j - 1]); } }
+        if r + 1 < s.len() { assert(s[r + 1] == s.skip(1)[r]); }
+        assert forall|n: int| is_not_nl_run(s, n) implies n == run_not_nl(s) by {
+            if n == 0 { assert(is_newline_s(s[0])); } else {
+                assert forall|j: int| 0 <= j < n - 1 implies !is_newline_s(#[trigger] s.skip(1)[j]) by { assert(s.skip(1)[j] == s[j + 1]); }
+                if n < s.len() { assert(s.skip(1)[n - 1] == s[n]); }
+                assert(is_not_nl_run(s.skip(1), n - 1));
+            }
+        }
+    } else {
+        assert forall|n: int| is_not_nl_run(s, n) implies n == run_not_nl(s) by { if n > 0 { assert(!is_newline_s(s[0])); } }
+    }
+}
+
+/// One lexer step as a function: kind, length in chars and next state of the token at the front of the
+/// non-empty text s (deb822(5) token grammar, from the statements of C01/C03)
+pub open spec fn lex_fn(st: LexState, s: Seq<char>) -> (SyntaxKind, int, LexState) {
+    let c = s[0];
+    if c == ':' && !st.colon_seen && !st.indented { (SyntaxKind::COLON, 1, LexState { colon_seen: true, ..st }) }
+    else if is_newline_s(c) { (SyntaxKind::NEWLINE, 1, LexState { sol: true, colon_seen: false, indented: false }) }
+    else if is_indent_s(c) {
+        if st.sol { (SyntaxKind::INDENT, run_indent(s), LexState { indented: true, ..st }) } else { (SyntaxKind::WHITESPACE, run_indent(s), st) }
+    }
+    else if c == '#' && st.sol { (SyntaxKind::COMMENT, run_not_nl(s), LexState { sol: true, colon_seen: false, ..st }) }
+    else if is_initial_key_char_s(c) && st.sol && !st.indented { (SyntaxKind::KEY, run_key(s), LexState { sol: false, ..st }) }
+    else if !st.sol || st.indented { (SyntaxKind::VALUE, run_not_nl(s), st) }
+    else { (SyntaxKind::ERROR, 1, st) }
 }
 
 /// One lexer step on non-empty input s from state st yields token (k, t), leaves s2 and state st2.
@@ -27,28 +134,24 @@ pub open spec fn lex_step(st: LexState, s: Seq<char>, k: SyntaxKind, t: Seq<char
     &&& s.len() > 0
     &&& t.len() > 0
     &&& s =~= t + s2
-    &&& {
-        let c = s[0];
-        let n = t.len() as int;
-        if c == ':' && !st.colon_seen {
-            k == SyntaxKind::COLON && n == 1 && st2 == (LexState { colon_seen: true, ..st })
-        } else if is_newline_s(c) {
-            k == SyntaxKind::NEWLINE && n == 1 && st2 == (LexState { sol: true, colon_seen: false, indented: false })
-        } else if is_indent_s(c) {
-            is_run(s, |c: char| is_indent_s(c), n) && (
-                if st.sol { k == SyntaxKind::INDENT && st2 == (LexState { indented: true, ..st }) }
-                else { k == SyntaxKind::WHITESPACE && st2 == st })
-        } else if c == '#' && st.sol {
-            k == SyntaxKind::COMMENT && is_run(s, |c: char| !is_newline_s(c), n)
-                && st2 == (LexState { sol: true, colon_seen: false, ..st })
-        } else if is_initial_key_char_s(c) && st.sol && !st.indented {
-            k == SyntaxKind::KEY && is_run(s, |c: char| is_key_char_s(c), n) && st2 == (LexState { sol: false, ..st })
-        } else if !st.sol || st.indented {
-            k == SyntaxKind::VALUE && is_run(s, |c: char| !is_newline_s(c), n) && st2 == st
-        } else {
-            k == SyntaxKind::ERROR && n == 1 && st2 == st
-        }
+    &&& (k, t.len() as int, st2) == lex_fn(st, s)
+}
+
+/// the whole token sequence of a text
+pub open spec fn tokens_of(st: LexState, s: Seq<char>) -> Seq<(SyntaxKind, Seq<char>)>
+    decreases s.len()
+{
+    if s.len() == 0 { Seq::empty() }
+    else {
+        let (k, n, st2) = lex_fn(st, s);
+        if n <= 0 || n > s.len() { Seq::empty() } else { seq![(k, s.take(n))] + tokens_of(st2, s.skip(n)) }
     }
+}
+
+pub broadcast group group_lex_runs {
+    lemma_run_indent,
+    lemma_run_key,
+    lemma_run_not_nl,
 }
 
 impl<'a> lex___Iter<'a> {
